@@ -441,7 +441,7 @@ def random_config(decl, rng: random.Random) -> Config:
 
 def random_cases(ids: IdGen, tier: str, seed: int):
     rng = random.Random(seed * 7919 + 17)
-    n = 192 if tier == "quick" else 960
+    n = 192 if tier == "quick" else 3000
     cases = []
     for i in range(n):
         r = REPR_ORDER[(i + seed) % len(REPR_ORDER)] if i < 24 else rng.choice(REPR_ORDER)
@@ -584,7 +584,7 @@ def cfg_corpus(tier: str, seed: int):
                 add(d, cfg, "pair", decorate_p=0.25, atoms=[a, b])
         # triples
         triples = list(itertools.combinations(ATOMS, 3))
-        for t in rng.sample(triples, 20 if tier == "quick" else 1500):
+        for t in (rng.sample(triples, 20) if tier == "quick" else triples):
             cfg = config_from_atoms(list(t), d)
             if cfg is not None:
                 add(d, cfg, "triple", decorate_p=0.3, atoms=list(t))
@@ -771,7 +771,7 @@ def dom_corpus(tier: str, seed: int):
             vs = list(range(rlo, rhi + 1))
             add(shapes.build_decl(r, vs, "dom_whole_type", "implicit", "first", rng), {"feat": ["size", "limit"]}, modes_i=ri)
         # 6. random in-domain declarations with mixed spellings
-        for _ in range(3 if tier == "quick" else 12):
+        for _ in range(3 if tier == "quick" else 60):
             d = shapes.random_decl(r, rng, max_n=16)
             add(d, {"feat": ["random"]}, modes_i=ri)
     # sizes beyond the small ones
